@@ -57,8 +57,8 @@ def corpus(tier, seed):
 def ins_corpus(tier, seed):
     s = seed * 1000 + 550
     specs = [
-        ins_spec("gauss2", s + 1, 100),
-        ins_spec("rosen2", s + 2, 100, draw_iid_live=False),
+        ins_spec("gauss2", s + 1, 100, resume_after_done=1, run_again=1),   # and resumed after it finished
+        ins_spec("rosen2", s + 2, 100, draw_iid_live=False, resume_after_done=1),
         ins_spec("gauss4", s + 3, 100, strict_threshold=True, kills=[400]),
         ins_spec("gauss2", s + 4, 80, n_initial=150, draw_constant=False, kills=[300, 300]),
         ins_spec("gauss2", s + 5, 100, max_iteration=2, reparameterisation=None),
